@@ -22,5 +22,5 @@ CONSTANTS
   M_BusyTakesAll = TRUE
   M_TimerFlushesAny = TRUE
 VIEW view
-INVARIANTS TypeOK C01res C02res C05 C08 C09 OneOwner ChargedOnce NoCodePanic NoStuck
+INVARIANTS C01 C02 C05 C08 C09 AtQuiescence
 CHECK_DEADLOCK FALSE
